@@ -59,6 +59,10 @@ let fmt_of_spec (spec : string) : fmt option =
   | ["config"] -> Some (config_fmt !cur)
   | ["feature"] -> Some (feature_fmt !ftypes)
   | ["object"; "wlearner"] -> Some (object_fmt (wlearner_table (env ()) !wlids))
+  | ["object"; "linear"] ->
+    (match Hashtbl.find_opt ids "linear" with
+     | Some l -> Some (object_fmt (List.map (fun id -> (nlist_of_string id, linear_fmt (env ()))) l))
+     | None -> None)
   | ["object"; kind] ->
     (match Hashtbl.find_opt ids kind with
      | Some l -> Some (plain_object_fmt !cur (List.map nlist_of_string l))
